@@ -238,6 +238,10 @@ func replayOne(rf *vstat.ReplayFile) string {
 		if err = strict(&sc); err == nil {
 			err = runFuzzValue(&sc)
 		}
+	case "concurrent", "concurrent-race":
+		return replayConc(rf)
+	case "large":
+		return replayLarge(rf)
 	default:
 		return "unknown part " + rf.Part
 	}
